@@ -59,7 +59,7 @@ def run_shard(pid, tier, seed, shard, nshards, outdir, timeout):
     cmd = [PY, '-B', '-m', 'vmon.shard', pid, '--tier', tier, '--seed', str(seed),
            '--shard', str(shard), '--nshards', str(nshards), '--out', out]
     env = dict(os.environ)
-    env.update(PYTHONDONTWRITEBYTECODE='1', PYTHONHASHSEED='0', MPLBACKEND='Agg',
+    env.update(VERIF_SCRATCH=os.path.join(outdir, 'scratch-%d' % shard), PYTHONDONTWRITEBYTECODE='1', PYTHONHASHSEED='0', MPLBACKEND='Agg',
                OMP_NUM_THREADS='1', OPENBLAS_NUM_THREADS='1', MKL_NUM_THREADS='1')
     debug = bool(os.environ.get('VMON_DEBUG'))
     t0 = time.time()
